@@ -1,6 +1,8 @@
 """C04 - syntax errors are contained: only the malformed construct is dropped."""
 from __future__ import annotations
 
+from sa.core import pool_repo as core_pool_repo, pmap as core_pmap  # noqa: E402
+
 import ast
 
 from sa import cfg as cfgmod
@@ -502,7 +504,7 @@ def _r04i_job(args):
     from sa.absint import Evaluator, Raised, Record
     from sa.core import Repo
 
-    repo = Repo(root)
+    repo = core_pool_repo(root)
     m = repo.mod(UTIL)
     fn = m.get('Base._tokensupto2')
     me = Record(_tokenvalue=lambda tok, normalize=False: tok[1] if tok else None, _type=lambda tok: tok[0] if tok else None)
@@ -550,8 +552,7 @@ def r04i(chk, rid='R04.i', thorough=False):
     maxlen = 5 if thorough else 4
     rest = [_tok('x'), ('CHAR', '{', 1, 1), ('CHAR', '}', 1, 1)]
     starts = ('x', 'f(', '(', '[', '{')
-    with mp.get_context('fork').Pool(len(starts)) as pool:
-        res = pool.map(_r04i_job, [(chk.repo.root, st, maxlen) for st in starts])
+    res = core_pmap(chk.repo, _r04i_job, [(chk.repo.root, st, maxlen) for st in starts], len(starts))
     cases = sum(c for _, c, _ in res)
     bad = {'start ' + st: b for st, _, b in res}
     if cases < 400:
@@ -593,7 +594,7 @@ def _r04j_job(args):
     from sa.absint import Evaluator, Obj, Raised, Record
     from sa.core import Repo
 
-    repo = Repo(root)
+    repo = core_pool_repo(root)
     m = repo.mod(DECL)
     fn = m.get('CSSStyleDeclaration._setCssText')
     log = Record(error=lambda *a, **k: None, warn=lambda *a, **k: None, info=lambda *a, **k: None, debug=lambda *a, **k: None)
@@ -674,8 +675,7 @@ def r04j(chk, rid='R04.j', thorough=False):
     starts = ('x', ':', '!', '(', '[', '{', 'f(')
     maxlen = 4 if thorough else 3
     ctx = mp.get_context('fork')
-    with ctx.Pool(len(starts)) as pool:
-        res = pool.map(_r04j_job, [(chk.repo.root, st, maxlen) for st in starts])
+    res = core_pmap(chk.repo, _r04j_job, [(chk.repo.root, st, maxlen) for st in starts], len(starts))
     cases = sum(c for _, c, _ in res)
     if cases < 300:
         raise AnalysisError(f'only {cases} damaged declarations enumerated')
